@@ -1017,6 +1017,9 @@ class Multiplexer(utils.EventEmitter):
 
     def on_l2cap_channel_close(self) -> None:
         logger.debug('L2CAP channel closed, cleaning up')
+        if self.connection_result:
+            self.connection_result.cancel()
+            self.connection_result = None
         if self.open_result:
             self.open_result.cancel()
             self.open_result = None
